@@ -42,7 +42,8 @@ def run(ctx):
             if not b:
                 continue
             tr = ctx.scratch.path("c09_%s.ndjson" % name)
-            ok, _ = ctx.run_harness(b, [tr, req, ctx.tier, load], tr)
+            # (the two zero-to-one configurations always run the quick-size corpus: they exist for the dispatchers, not for volume)
+            ok, _ = ctx.run_harness(b, [tr, req, "quick" if name.endswith("_zo") else ctx.tier, load], tr)
             if not ok:
                 continue
             with open(tr, "rb") as f:
